@@ -593,6 +593,7 @@ def do_check(prop, P, tier, seed):
         if k in seen_keys:
             continue
         seen_keys.add(k)
+        fl['_job'] = j
         path = write_replay(prop, j.target, fl)
         if fl.get('leaklog'):
             # not re-executable as a single case: the kept artefact is the sanitizer log of the unit
@@ -620,6 +621,44 @@ def do_check(prop, P, tier, seed):
             flaky.append((path, fl, results))
         else:
             flaky.append((path, fl, results))
+
+    # A failure that does not reproduce as a single case in a fresh process may still be real: state that the
+    # code under test keeps between operations (a static / thread_local counter, a cache) makes the failure a
+    # property of the HISTORY of the unit, not of its last case. The unit is a pure function of (binary, args,
+    # seed), so it is run again twice as a whole; the failure is reported as a violation only if the same
+    # failure key shows up in both re-runs (3 of 3 whole-unit runs). Otherwise it stays FLAKY.
+    import copy
+    still_flaky, rerun_cache = [], {}
+    for path, fl, results in flaky:
+        j = fl.get('_job')
+        if j is None or j.fuzz or not all(r == 'pass' for r in results):
+            still_flaky.append((path, fl, results))
+            continue
+        if id(j) not in rerun_cache:
+            keys = []
+            for n in (1, 2):
+                j2 = copy.copy(j)
+                j2.unit = '%s_again%d' % (j.unit, n)
+                j2.frag = None
+                run_job(j2, outdir)
+                keys.append(set(x.get('key') for x in ((j2.frag or {}).get('failures') or [])))
+            rerun_cache[id(j)] = keys
+        keys = rerun_cache[id(j)]
+        if all(fl.get('key') in ks for ks in keys):
+            if not any(v[1].get('key') == fl.get('key') and v[1].get('_job') is j for v in violations):
+                fl['message'] = ('history-dependent: the last case passes in a fresh process, but the whole unit (%s %s) fails the same way in 3 of 3 runs - '
+                                 'state survives between operations :: ' % (os.path.basename(j.binary), ' '.join(j.args))) + fl.get('message', '')
+                with open(path + '.history', 'w') as f:
+                    f.write('history-dependent failure; reproduce with the whole unit: %s %s\n' % (j.binary, ' '.join(j.args)))
+                violations.append((path, fl))
+            else:
+                try:
+                    os.remove(path)
+                except OSError:
+                    pass
+        else:
+            still_flaky.append((path, fl, results))
+    flaky = still_flaky
 
     wall = time.time() - t0
     nt = len(agg['hashes']) + agg.get('extra_nt', 0)
